@@ -45,6 +45,8 @@ func (r *Decoder) produceString(r0 cursorio.DecodedRune) (*tokenString, error) {
 		r1, err := r.buf.NextRune()
 		if err != nil {
 			if errors.Is(err, io.EOF) {
+				uncommitted = append(uncommitted, r0)
+
 				goto DONE
 			}
 
@@ -67,7 +69,7 @@ func (r *Decoder) produceString(r0 cursorio.DecodedRune) (*tokenString, error) {
 		r.buf.BacktrackRunes(r1)
 
 		return &tokenString{
-			Offsets: r.commitForTextOffsetRange(append(uncommitted, r0, r1).AsDecodedRunes()),
+			Offsets: r.commitForTextOffsetRange(append(uncommitted, r0).AsDecodedRunes()),
 			Decoded: "",
 		}, nil
 	} else {
